@@ -73,6 +73,8 @@ type c06in struct {
 	Extra     string    `json:"extra,omitempty"` // further URL parts in front
 	StartS    int64     `json:"start_s"`
 	Snr       int64     `json:"snr"` // -1: not in the URL (default start number 0)
+	AtoMS     int64     `json:"ato_ms,omitempty"`
+	AtoGeSeg  bool      `json:"ato_ge_segment,omitempty"` // availabilityTimeOffset >= shortest segment duration
 	NowMS     int64     `json:"now_ms,omitempty"`
 	URLSingle string    `json:"url_single,omitempty"`
 	URLMulti  string    `json:"url_multi,omitempty"`
@@ -174,7 +176,7 @@ type mpdSpec struct {
 }
 
 func prefix(in c06in, multi bool) string {
-	cfg := lib.TLCfg{StartS: in.StartS, Snr: in.Snr, Tsbd: in.Tsbd, Mode: in.Mode}
+	cfg := lib.TLCfg{StartS: in.StartS, Snr: in.Snr, Tsbd: in.Tsbd, Mode: in.Mode, AtoMS: in.AtoMS}
 	p := in.Extra + cfg.URLPrefix()
 	if multi {
 		p = fmt.Sprintf("periods_%d/", in.PPH) + p
@@ -785,6 +787,55 @@ func run(c *lib.Ctx) error {
 				terms = append(terms, term)
 			}
 			id++
+		}
+	}
+	// availabilityTimeOffset, below and at/above the segment duration: instants at which now + ato
+	// crosses a period boundary
+	atoSpecs := []struct{ path, mpd string }{{"testpic_2s", "Manifest.mpd"}, {"testpic_2s", "Manifest_thumbs.mpd"}, {"testpic_8s", "Manifest.mpd"}, {"testpic_alt_seg_dur_stl", "Manifest.mpd"}}
+	nAto := 2
+	if c.Thorough() {
+		nAto = 12
+	}
+	for _, sp := range atoSpecs {
+		a := byPath[sp.path]
+		N := int64(len(a.Ref().Segs))
+		segMS := (a.RefDur*1000 + a.RefTS*N/2) / (a.RefTS * N)
+		minSegMS := int64(1) << 62
+		for _, sg := range a.Ref().Segs {
+			if d := (sg.End - sg.Start) * 1000 / a.RefTS; d < minSegMS {
+				minSegMS = d
+			}
+		}
+		for _, pph := range []int64{1, 60, 300} {
+			P := 3600 / pph
+			if (P*1000)%segMS != 0 {
+				continue
+			}
+			for _, mode := range modes {
+				for _, ato := range []int64{minSegMS / 4, minSegMS / 2, minSegMS, segMS + 1000, 3 * segMS, a.LoopMS + 1000} {
+					for k := 0; k < nAto; k++ {
+						b := int64(1+rng.Intn(30)) * P * 1000
+						offs := []int64{-ato, -ato - 1, -ato + 1, -1, 0, -ato / 2, -segMS, rng.Int63n(P * 1000)}
+						now := b + offs[rng.Intn(len(offs))]
+						if now < 0 {
+							continue
+						}
+						in := c06in{Kind: "live", Asset: sp.path, MPD: sp.mpd, Mode: mode, PPH: pph, Tsbd: -1, Snr: -1, AtoMS: ato, AtoGeSeg: ato >= minSegMS,
+							NowMS: now, Instant: "ato"}
+						lr.fetchAll = false
+						term, ok := lr.live(id, in, a, true)
+						if in.AtoGeSeg {
+							c.Count("live/" + mode + "/ato>=segment")
+						} else {
+							c.Count("live/" + mode + "/ato<segment")
+						}
+						if ok {
+							terms = append(terms, term)
+						}
+						id++
+					}
+				}
+			}
 		}
 	}
 	nLive := id
